@@ -265,6 +265,11 @@ pub fn field_values(b: &[u8], f: &Field) -> Vec<u64> {
     if max == u64::MAX {
         c.extend_from_slice(&[1 << 63, u64::MAX]);
     }
+    // BCF typed descriptors: the long forms ("length follows as a typed integer") of every type; the byte after
+    // the descriptor is then read as the length's descriptor
+    if f.kind.contains("descriptor") && f.width == 1 {
+        c.extend_from_slice(&[0xf0, 0xf1, 0xf2, 0xf3, 0xf5, 0xf7]);
+    }
     // layout-aware values from the structural walk, then a dense window around the true value, so that "exactly
     // one byte / element short or long" boundaries are hit deterministically
     c.extend_from_slice(&f.extra);
